@@ -161,8 +161,12 @@ class OneShotIter:
 
 
 class VDict:
+    """dict: concrete keys in .d; keys that contain symbolic values live in the association list .sym (kept
+    pairwise distinct under the path condition by the interpreter's store)"""
+
     def __init__(self, d=None):
         self.d = dict(d or {})
+        self.sym = []
 
 
 class VSet:
